@@ -93,6 +93,7 @@ Export ==
     [] fam = "ts" -> Emit(<<"ts", par>>, << TsCase(par[1], par[2]) >>)
     [] fam = "ts-partial" -> Emit(<<"ts-partial", par>>, << [op |-> "tileset", bmp |-> ImageWith(Value, Len(Value.palette)), custom |-> EncodeCustom(Value), top |-> Encode(TopDown(Value))] >>)
     [] fam = "wide" -> Emit(<<"wide", par>>, << Factory(par[2], par[3], par[1]), Factory2(Value) >>)
-    [] fam = "tsbad" -> Emit(<<"tsbad">>, << TsBad(32, 32, 4), TsBad(31, 32, 8), TsBad(33, 32, 8), TsBad(32, 33, 8), TsBad(32, -31, 8) >>)
+    [] fam = "tsbad" -> Emit(<<"tsbad">>, << TsBad(32, 32, 4), TsBad(31, 32, 8), TsBad(33, 32, 8), TsBad(32, 33, 8), TsBad(32, -31, 8) >>
+                                     \o [i \in 1..8 |-> [op |-> "tileset_bad", custom |-> EncodeCustomDepth(TS(32, 3), <<0, 1, 4, 7, 9, 16, 24, 32>>[i])]])      \* custom files that declare another bit depth
     [] OTHER -> Emit(<<"det", par>>, << Detect(<<par[1], par[2], par[3], par[4]>>, par[5]) >>)
 ====
